@@ -5,13 +5,12 @@ import ast
 from fractions import Fraction as F
 
 from ..deps import DepAnalysis, clean, NONE, NOTNONE
-from ..limits import LimitAnalysis, V, B, PINF, UNK
-from ..parloop import classify_writes, is_parallel, prange_loops
-from ..peval import Evaluator, Unsupported
-from ..poly import Poly, Rat, S, Fn
-from ..source import norm, const_value, walk_no_nested, FuncInfo, AnalysisError
-from .common import is_name, params, calls_in, returns_of
-from .kernel_rules import run_kernel, KERNEL, Wrapped, Cmp, Conj, Sym
+from ..limits import LimitAnalysis, V, B, PINF
+from ..parloop import classify_writes, is_parallel
+from ..peval import Unsupported
+from ..poly import Poly, Rat
+from ..source import norm
+from .kernel_rules import run_kernel, KERNEL, Wrapped
 
 MAP = "plot/map.py::map"
 CELL = "layers[0]['dx']"
@@ -329,117 +328,12 @@ def check_preselection(run, tree, modes, want_window_deps=True):
 
 
 # =============================================================================== formulas (D1)
-class FormulaEval(Evaluator):
-    def __init__(self, tree, fi, env):
-        super().__init__(env)
-        self.tree, self.fi = tree, fi
-
-    def ev_Name(self, node):
-        if node.id in self.env:
-            return self.env[node.id]
-        if node.id == "round":
-            return lambda v: Fn("round", v)
-        raise Unsupported("name %s" % node.id)
-
-    def constant(self, node):
-        if isinstance(node.value, (int, float)) and not isinstance(node.value, bool):
-            return Poly.const(node.value)
-        return node.value
-
-    def ev_Subscript(self, node):
-        t = norm(node)
-        if t in self.env:
-            return self.env[t]
-        return super().ev_Subscript(node)
-
-    def ev_Attribute(self, node):
-        t = norm(node)
-        if t in self.env:
-            return self.env[t]
-        d = self.tree.dotted(self.fi.module, node)
-        if d == "numpy.linspace":
-            return lambda a, b, n: Fn("linspace", a, b, n)
-        raise Unsupported("attribute %s" % t)
-
-    def call(self, node, func, args, kwargs):
-        if callable(func):
-            return func(*args, **kwargs)
-        raise Unsupported("call %s" % norm(node.func))
 
 
-def find_assign(fi, name, within=None):
-    out = []
-    for n in walk_no_nested(within or fi.node):
-        if isinstance(n, ast.Assign) and len(n.targets) == 1 and norm(n.targets[0]) == name:
-            out.append(n)
-    return out
 
 
-def check_grid_formulas(run, tree, axes):
-    fi = tree.func(MAP)
-    run.analysed(fi)
-    half = Poly.const(F(1, 2))
-    for ax in axes:
-        lo, hi, r = S(ax + "min"), S(ax + "max"), S("res_" + ax)
-        env = {ax + "min": lo, ax + "max": hi, "resolution['%s']" % ax: r}
-        sp = find_assign(fi, ax + "spacing")
-        cen = find_assign(fi, ax + "centers")
-        construct = "%s::%sspacing" % (MAP, ax)
-        if ax == "z":
-            sp = [s for s in sp if "resolution" in norm(s.value)]
-            cen = [c for c in cen if "linspace" in norm(c.value)]
-        if len(sp) != 1 or len(cen) != 1:
-            run.unresolved(construct, fi.where(), "expected one assignment of %sspacing and of %scenters (found %d, %d)" % (ax, ax, len(sp), len(cen)))
-            continue
-        try:
-            ev = FormulaEval(tree, fi, env)
-            spv = ev.ev(sp[0].value)
-            env[ax + "spacing"] = S(ax + "spacing")
-            cv = FormulaEval(tree, fi, env).ev(cen[0].value)
-        except Unsupported as e:
-            run.unresolved(construct, fi.where(sp[0]), "cannot evaluate: %s" % e)
-            continue
-        want_sp = Rat(hi - lo) / Rat(r)
-        run.ob(construct, Rat.lift(spv) == want_sp, fi.where(sp[0]), "%sspacing = %r (required (max-min)/resolution)" % (ax, spv),
-               "pixel size inconsistent with the window: the returned pixel centres do not tile the window")
-        sps = S(ax + "spacing")
-        ok = isinstance(cv, Fn) and cv.name == "linspace" and Rat.lift(cv.args[0]) == Rat(lo + half * sps) and \
-            Rat.lift(cv.args[1]) == Rat(hi - half * sps) and Rat.lift(cv.args[2]) == Rat(r)
-        run.ob("%s::%scenters" % (MAP, ax), ok, fi.where(cen[0]), "%scenters = %r (required linspace(min + spacing/2, max - spacing/2, n))" % (ax, cv),
-               "the returned pixel coordinates are the pixel edges / shifted by half a pixel: every pixel shows the value of a "
-               "neighbouring sample point")
 
 
-def check_kernel_call_scaling(run, tree):
-    """C03.R7: every length-like argument of the kernel call is divided by the same scale; axis pairing of the arguments."""
-    fi = tree.func(MAP)
-    call = None
-    for c in calls_in(fi.node):
-        r = tree.resolve_call(fi, c)
-        if isinstance(r, FuncInfo) and r.qual == KERNEL:
-            call = c
-    if call is None:
-        run.violated(MAP + "::kernel-call", fi.where(), "map no longer calls evaluate_on_grid", "no sampling")
-        return None
-    kws = {k.arg: k.value for k in call.keywords}
-    length_like = [p for p in params(tree.func(KERNEL)) if p not in ("cell_values", "ndim")]
-    divisors = {}
-    for p in length_like:
-        if p not in kws:
-            run.violated("%s::kernel-call::%s" % (MAP, p), fi.where(call), "argument %s is not passed by keyword" % p, "positional mix-up")
-            continue
-        e = kws[p]
-        divs = set()
-        for n in ast.walk(e):
-            if isinstance(n, ast.BinOp) and isinstance(n.op, ast.Div):
-                divs.add(norm(n.right))
-        divisors[p] = divs
-    alld = set().union(*divisors.values()) if divisors else set()
-    ok = len(alld) == 1 and all(len(d) == 1 for d in divisors.values())
-    run.ob(MAP + "::kernel-call::one-length-scale", ok, fi.where(call),
-           "divisors used: %s%s" % (sorted(alld), "; unscaled: %s" % sorted(p for p, d in divisors.items() if not d) if not ok else ""),
-           "cell positions and pixel positions reach the kernel in different length scales")
-    return call, kws
 
 
 PAIRING = {
@@ -449,110 +343,5 @@ PAIRING = {
 }
 
 
-def check_axis_pairing(run, tree):
-    """The projections, grid edges, spacings and pixel positions are paired axis by axis (x<->u, y<->v, z<->n)."""
-    fi = tree.func(MAP)
-    res = check_kernel_call_scaling(run, tree)
-    if not res:
-        return
-    call, kws = res
-    local = {}
-    for n in walk_no_nested(fi.node):
-        if isinstance(n, ast.Assign) and len(n.targets) == 1 and isinstance(n.targets[0], ast.Name):
-            local.setdefault(n.targets[0].id, []).append(n.value)
-    basis_of = {}
-    for nm, vals in local.items():
-        for v in vals:
-            if isinstance(v, ast.Attribute) and is_name(v.value, "basis") and v.attr in "nuv":
-                basis_of[nm] = v.attr
-
-    def names_in(e):
-        return {n.id for n in ast.walk(e) if isinstance(n, ast.Name)}
-    for ax, b in (("x", "u"), ("y", "v"), ("z", "n")):
-        construct = "%s::axis-pairing[%s<->%s]" % (MAP, ax, b)
-        problems = []
-        # projection
-        e = kws.get("cell_positions_in_new_basis_%s" % ax)
-        proj = [nm for nm in names_in(e) if nm in local] if e is not None else []
-        ok_proj = False
-        for nm in proj:
-            for v in local.get(nm, []):
-                if isinstance(v, ast.Call) and isinstance(v.func, ast.Attribute) and v.func.attr == "dot" and v.args and \
-                        isinstance(v.args[0], ast.Name) and basis_of.get(v.args[0].id) == b and is_name(v.func.value, "coords"):
-                    ok_proj = True
-        if not ok_proj:
-            problems.append("new-basis %s coordinate is not coords.dot(basis.%s)" % (ax, b))
-        for prefix, want in (("grid_lower_edge_in_new_basis_", ax + "min"), ("grid_spacing_in_new_basis_", ax + "spacing"),
-                             ("cell_positions_in_original_basis_", "coords.%s" % ax)):
-            e = kws.get(prefix + ax)
-            if e is None or want not in norm(e):
-                problems.append("%s%s = %s (expected %s)" % (prefix, ax, norm(e) if e is not None else "-", want))
-        run.ob(construct, not problems, fi.where(call), "; ".join(problems) or "projection, lower edge, spacing and original coordinate paired",
-               "cells are placed on the image with the %s and another axis swapped: pixels show the wrong cells" % ax)
-    # pixel positions = xgrid*u + ygrid*v + zgrid*n
-    pp = local.get("pixel_positions", [])
-    ok = False
-    if len(pp) == 1:
-        t = norm(pp[0])
-        arr_basis = {}
-        for nm, vals in local.items():
-            for v in vals:
-                if isinstance(v, ast.Call) and norm(v.func) == "np.array" and v.args:
-                    srcs = {n.id for n in ast.walk(v.args[0]) if isinstance(n, ast.Name)}
-                    bs = {basis_of[s] for s in srcs if s in basis_of}
-                    if len(bs) == 1:
-                        arr_basis[nm] = bs.pop()
-        want_pairs = {("xgrid", "u"), ("ygrid", "v"), ("zgrid", "n")}
-        got = set()
-        for n in ast.walk(pp[0]):
-            if isinstance(n, ast.BinOp) and isinstance(n.op, ast.Mult):
-                ln = {x.id for x in ast.walk(n.left) if isinstance(x, ast.Name)}
-                rn = {x.id for x in ast.walk(n.right) if isinstance(x, ast.Name)}
-                for g in ("xgrid", "ygrid", "zgrid"):
-                    for side_g, side_b in ((ln, rn), (rn, ln)):
-                        if g in side_g:
-                            for a in side_b:
-                                if a in arr_basis:
-                                    got.add((g, arr_basis[a]))
-        ok = got == want_pairs
-        detail = "pixel_positions pairs %s" % sorted(got)
-    else:
-        detail = "pixel_positions assignment not found"
-    run.ob(MAP + "::pixel-positions", ok, fi.where(pp[0]) if pp else fi.where(), detail,
-           "the sample point of pixel (i,j) is not origin + x_i*u + y_j*v (+ z_k*n)")
-    gp = kws.get("grid_positions_in_original_basis")
-    run.ob(MAP + "::kernel-call::grid-positions", gp is not None and "pixel_positions" in norm(gp), fi.where(call),
-           "grid_positions_in_original_basis = %s" % (norm(gp) if gp is not None else "-"), "", nontrivial=False)
-    cs = kws.get("cell_sizes")
-    half = False
-    if cs is not None:
-        for nm in {n.id for n in ast.walk(cs) if isinstance(n, ast.Name)}:
-            for v in local.get(nm, []):
-                t = norm(v).replace(" ", "")
-                if "cell_size[" in t and ("*0.5" in t or "0.5*" in t or "/2" in t):
-                    half = True
-    run.ob(MAP + "::kernel-call::cell-half-size", half, fi.where(call), "cell_sizes passed to the kernel is %s" % (
-        "half the cell size (the kernel compares |offset| with it)" if half else "not the half size: " + (norm(cs) if cs is not None else "-")),
-           "containment tested against the full size: pixels up to one cell away take the value")
 
 
-def check_nan_mask(run, tree):
-    """C03.R6: NaN means 'no cell' end to end."""
-    fi = tree.func(MAP)
-    txt = [norm(s) for s in walk_no_nested(fi.node) if isinstance(s, ast.stmt)]
-    mask = [t for t in txt if t.startswith("mask = ")]
-    ok = any(t.replace(" ", "") in ("mask=np.isnan(binned[-1,...])",) or ("np.isnan(" in t and "binned" in t) for t in mask)
-    run.ob(MAP + "::mask-is-isnan", ok, fi.where(), "mask = %s" % (mask or "?"), "pixels without a containing cell are not masked")
-    mw = [c for c in calls_in(fi.node) if norm(c.func).endswith("masked_where")]
-    ok2 = len(mw) >= 2 and all(c.args and norm(c.args[0]) in ("mask", "mask_vec") for c in mw)
-    run.ob(MAP + "::layers-masked", ok2, fi.where(), "%d masked_where calls with the NaN mask" % len(mw), "a layer is returned unmasked")
-    # slot bookkeeping: scalar layers occupy 1 slot, vector layers 3, in both loops
-    appends = {"vec": 0, "scalar": 0}
-    for n in walk_no_nested(fi.node):
-        if isinstance(n, ast.If) and "'vec'" in norm(n.test) and "to_render" in norm(n.test):
-            appends["vec"] = sum(1 for c in calls_in(ast.Module(body=n.body, type_ignores=[])) if norm(c.func) == "to_binning.append")
-            appends["scalar"] = sum(1 for c in calls_in(ast.Module(body=n.orelse, type_ignores=[])) if norm(c.func) == "to_binning.append")
-    incs = sorted({norm(s) for s in walk_no_nested(fi.node) if isinstance(s, ast.AugAssign) and is_name(s.target, "counter")})
-    ok3 = appends == {"vec": 3, "scalar": 1} and "counter += 1" in incs and "counter += 3" in incs
-    run.ob(MAP + "::slot-bookkeeping", ok3, fi.where(), "slots filled per layer %s; counter increments %s" % (appends, incs),
-           "after a vector layer every following layer shows another layer's values")
